@@ -98,8 +98,7 @@ SinkPlans(n, v) ==
 \* streams for one-shot decoders: the reference encodings incl. UPER, XER text when writable
 AllStreams(n, v) ==
   {<<"DER", Enc("DER", TRef(n), v)>>, <<"OER", Enc("OER", TRef(n), v)>>, <<"UPER", Enc("UPER", TRef(n), v)>>,
-   <<"DER", BerIndef(n, v)>>, <<"DER", BerVar(Env, TRef(n), v, [Canon EXCEPT !.real = "decimal-long"])>>,
-   <<"DER", BerVar(Env, TRef(n), v, [Canon EXCEPT !.real = "long-mantissa"])>>}
+   <<"DER", BerIndef(n, v)>>, <<"DER", BerVar(Env, TRef(n), v, [Canon EXCEPT !.real = "long-mantissa"])>>}
   \cup (IF XerWritable(Env, TRef(n), v) THEN {<<"CXER", Ser(XerTokens(Env, n, TRef(n), v), "canon")>>} ELSE {})
 Byte(x) == x % 256
 Interesting(x) == (IF MutDense THEN {0, 1, 127, 128, 129, 255, Byte(x + 1), Byte(x + 255), Byte(x + 128)}
@@ -125,7 +124,7 @@ LifePlans(n, v) ==
     \cup {<<OpDecodeLit(1, st[1], st[2], "valid"), OpReset(1), OpDecodeInto(1, st[1], st[2]), OpEncode(1, "DER"), OpFree(1)>>}
     \cup {<<OpArm(k), OpDecodeLit(1, st[1], st[2], "armed"), OpFree(1)>> : k \in 1..MaxFail}
     \cup {<<OpBuild(1), OpArm(k), OpEncode(1, st[1]), OpFree(1)>> : k \in 1..3}
-    \cup {<<OpBuild(1), OpAllocSweepEnc(1, st[1]), OpFree(1)>>, <<OpAllocSweepDec(st[1], st[2])>>}
+    \cup {<<OpBuild(1), OpAllocSweepEnc(1, st[1]), OpFree(1)>>, <<OpAllocSweepDec(st[1], st[2])>>, <<OpTruncSweep(st[1], st[2])>>}
     \* valid encodings of values the C structure cannot hold: refused (or accepted) cleanly, then freed
     \cup {<<OpDecodeAny(1, st[1], IF st[1] = "CXER" THEN Ser(XerTokens(Env, n, TRef(n), x), "canon") ELSE Enc(st[1], TRef(n), x),
                          "unrepresentable"), OpPrint(1), OpFree(1)>> : x \in Overflows(RawEnv, TRef(n), v)}
@@ -150,7 +149,7 @@ IocPlans(n, v) ==
                  st \in IocStreams(n, c[2])} : c \in Take(IocCorruptions(RawEnv, TRef(n), v), 2)}
 \* big values (fragmented lengths): the reference encoders are not evaluated (TLC needs minutes per 64K-element
 \* sequence); the implementation's own encoding is the wire, decoding it must give the value back
-BigPlans == {<<OpBuild(1), OpEncode(1, s), OpDecode(2, s), OpCompare(1, 2), OpFree(1), OpFree(2)>> : s \in {"DER", "UPER", "OER"}}
+BigPlans == {<<OpBuild(1), OpEncode(1, s), OpTruncSweepW(s), OpDecode(2, s), OpCompare(1, 2), OpFree(1), OpFree(2)>> : s \in {"DER", "UPER", "OER"}}
 \* C19: the script a thread runs on one of its structures
 ThreadPlans == {<<OpBuild(1), OpEncode(1, s), OpDecode(2, s), OpCompare(1, 2), OpCheck(1), OpPrint(2), OpFree(1), OpFree(2)>> : s \in Syntaxes}
 PlansFor(n, v) ==
